@@ -1690,6 +1690,12 @@ void Interpreter::assign_array_element(const std::string &name, int64_t index,
     // - var->is_pointer && !var->is_array:
     // 単一ポインタ（ポインタ経由のアクセス）
     if (var->is_pointer && !var->is_array) {
+        // const T* 経由の ptr[i] = v は *(ptr + i) = v と同じく禁止
+        if (var->is_pointee_const) {
+            throw std::runtime_error(
+                "Cannot modify value through pointer to const (const T*)");
+        }
+
         // 単一ポインタが配列を指している場合のみ、ポインタ経由のアクセスとして処理
         int64_t ptr_value = var->value;
         bool is_metadata_ptr = (ptr_value < 0); // 負の値 = メタデータ
@@ -1884,6 +1890,12 @@ void Interpreter::assign_array_element_float(const std::string &name,
     // - var->is_pointer && !var->is_array:
     // 単一ポインタ（ポインタ経由のアクセス）
     if (var->is_pointer && !var->is_array) {
+        // const T* 経由の ptr[i] = v は *(ptr + i) = v と同じく禁止
+        if (var->is_pointee_const) {
+            throw std::runtime_error(
+                "Cannot modify value through pointer to const (const T*)");
+        }
+
         // 単一ポインタが配列を指している場合のみ、ポインタ経由のアクセスとして処理
         int64_t ptr_value = var->value;
         bool is_metadata_ptr = (ptr_value < 0); // 負の値 = メタデータ
